@@ -181,6 +181,71 @@ def check_positions(root, text, split_lines=None):
 
 
 # --------------------------------------------------------------------- C11
+def expected_leaf(L, pos, include_prefixes):
+    exp = next((l for l in L if l.end_pos >= pos), None)
+    if exp is not None and not include_prefixes and pos < exp.start_pos:
+        exp = None
+    return exp
+
+
+def random_order_navigation(root, L, idx, rng, n_ops=120):
+    """navigation answers must not depend on what was asked before: random (node, operation) queries, plus the end-to-end
+    jumps over long child lists (first child's next, then last child's next, ...), each compared with the plain walk"""
+    nodes = list(walk(root))
+    where = {}
+    for x in nodes:
+        for i, c in enumerate(getattr(x, 'children', None) or ()):
+            where[id(c)] = (x, i)
+
+    def first(n):
+        while getattr(n, 'children', None):
+            n = n.children[0]
+        return n
+
+    def last(n):
+        while getattr(n, 'children', None):
+            n = n.children[-1]
+        return n
+
+    def want(n, op):
+        if op in ('get_next_sibling', 'get_previous_sibling'):
+            if id(n) not in where:
+                return None
+            par, i = where[id(n)]
+            j = i + (1 if op == 'get_next_sibling' else -1)
+            return par.children[j] if 0 <= j < len(par.children) else None
+        if op == 'get_next_leaf':
+            k = idx.get(id(last(n)))
+            return L[k + 1] if k is not None and k + 1 < len(L) else None
+        if op == 'get_previous_leaf':
+            k = idx.get(id(first(n)))
+            return L[k - 1] if k is not None and k > 0 else None
+        if op == 'get_first_leaf':
+            return first(n)
+        return last(n)
+    ops = ['get_next_sibling', 'get_previous_sibling', 'get_next_leaf', 'get_previous_leaf', 'get_first_leaf', 'get_last_leaf']
+    plan = []
+    longs = [x for x in nodes if len(getattr(x, 'children', None) or ()) >= 8]
+    for x in (rng.sample(longs, 3) if len(longs) > 3 else longs):
+        ch = x.children
+        plan += [(ch[0], 'get_next_sibling'), (ch[-1], 'get_next_sibling'), (ch[-1], 'get_previous_sibling'), (ch[0], 'get_previous_sibling'),
+                 (ch[1], 'get_previous_sibling'), (ch[-1], 'get_next_sibling'), (ch[len(ch) // 2], 'get_next_sibling'), (ch[0], 'get_previous_sibling')]
+    for _ in range(n_ops):
+        plan.append((rng.choice(nodes), rng.choice(ops)))
+    rng.shuffle(plan) if rng.random() < .5 else None
+    done = 0
+    for n, op in plan:
+        try:
+            got = getattr(n, op)()
+        except Exception as e:
+            return ('nav_raise', '%s raised %r on %r' % (op, e, n)), done
+        w = want(n, op)
+        if got is not w:
+            return ('random_order_' + op, '%s of %r (asked in random order, query %d) is %r, the walk says %r' % (op, n, done, got, w)), done
+        done += 1
+    return None, done
+
+
 def check_navigation(root, text, rng, all_positions=True, max_positions=400):
     out = []
     info = {'positions': 0, 'zero_width': 0, 'repeated_siblings': 0}
@@ -188,6 +253,11 @@ def check_navigation(root, text, rng, all_positions=True, max_positions=400):
     idx = {id(l): i for i, l in enumerate(L)}
     if len(idx) != len(L):
         out.append(('leaf_twice', 'a leaf object occurs twice in the tree'))
+        return out, info
+    bad, done = random_order_navigation(root, L, idx, rng)
+    info['random_order_queries'] = done
+    if bad:
+        out.append(bad)
         return out, info
     for i, l in enumerate(L):
         if l.start_pos == l.end_pos and l.type != 'endmarker':
